@@ -19,9 +19,7 @@ CHILD_MODS = {
     "oplog/entry.rs": None,
     "tree/merkle_tree.rs": "c_tree.rs",
     "bitfield/dynamic.rs": "c_bitfield.rs",
-    "storage/mod.rs": "c_storage.rs",
     "crypto/hash.rs": "c_hash.rs",
-    "replication/events.rs": "c_events.rs",
 }
 
 BASE_MODELS = ["pretty-hash", "ed25519-dalek", "tracing", "tracing-attributes", "crc32fast"]
@@ -44,6 +42,38 @@ def strip_sections(toml: str) -> str:
 S_CHILD_MODS = {
     "core.rs": "s_core.rs",
 }
+# variant "st": the real storage/mod.rs (de-asynced) with its harness as child module
+ST_CHILD_MODS = {
+    "storage/mod.rs": "c_storage.rs",
+    "replication/events.rs": "c_events.rs",
+}
+
+
+def deasync(t: str, rel: str) -> str:
+    """`async fn` -> `fn`, `.await` -> `` (see variant "s" in build())."""
+    t2 = re.sub(r"\basync fn\b", "fn", t)
+    t2 = re.sub(r"\.await\b", "", t2)
+    if re.search(r"\basync\b\s*(move\s*)?\{", t2):
+        raise SystemExit("overlay: src/%s contains an async block; the de-async rewrite does not cover it" % rel)
+    return t2
+
+
+def cut_fn(t: str, name: str) -> str:
+    """Remove `fn name` (with its doc comments / attributes) from source text t by brace matching."""
+    m = re.search(r"\n([ \t]*(///[^\n]*\n|#\[[^\n]*\]\n)[ \t]*)*[ \t]*pub(\([a-z]+\))? (async )?fn %s\b" % re.escape(name), t)
+    if not m:
+        return t
+    i = t.index("{", m.end())
+    depth, j = 0, i
+    while j < len(t):
+        if t[j] == "{":
+            depth += 1
+        elif t[j] == "}":
+            depth -= 1
+            if depth == 0:
+                break
+        j += 1
+    return t[:m.start() + 1] + t[j + 1:]
 
 
 def build(dst: str, models=(), real_blake2=False, cfgs=(), variant="model"):
@@ -82,6 +112,23 @@ def build(dst: str, models=(), real_blake2=False, cfgs=(), variant="model"):
     # --- variant "s": the storage layer (environment of core.rs) is replaced by its model
     child_mods = dict(CHILD_MODS)
     extra_children = {}
+    if variant == "st":
+        # the REAL storage/mod.rs, de-asynced, against the sync RandomAccess trait model; the three
+        # constructors that build futures-returning callbacks are cut (the harness, a child module,
+        # builds `Storage { .. }` directly); core.rs/builder.rs are de-asynced as in variant "s"
+        sp = os.path.join(dst, "src/storage/mod.rs")
+        if not os.path.exists(sp):
+            raise SystemExit("overlay: /repo/src/storage/mod.rs is missing")
+        t = open(sp).read()
+        for fn in ("open", "new_memory", "new_disk"):
+            t = cut_fn(t, fn)
+        open(sp, "w").write(deasync(t, "storage/mod.rs"))
+        for rel in ("core.rs", "builder.rs"):
+            fp = os.path.join(dst, "src", rel)
+            src_text = deasync(open(fp).read(), rel)
+            open(fp, "w").write(src_text)
+        models = list(models) + ["async-broadcast", "random-access-storage-sync", "random-access-memory-sync", "random-access-disk-sync"]
+        extra_children = dict(ST_CHILD_MODS)
     if variant == "s":
         if not os.path.exists(os.path.join(dst, "src/storage/mod.rs")):
             raise SystemExit("overlay: /repo/src/storage/mod.rs is missing")
@@ -95,12 +142,8 @@ def build(dst: str, models=(), real_blake2=False, cfgs=(), variant="model"):
         # the coroutine and nothing else.  Regenerated from /repo's source on every run.
         for rel in ("core.rs", "builder.rs"):
             fp = os.path.join(dst, "src", rel)
-            t = open(fp).read()
-            t2 = re.sub(r"\basync fn\b", "fn", t)
-            t2 = re.sub(r"\.await\b", "", t2)
-            if re.search(r"\basync\b\s*(move\s*)?\{", t2):
-                raise SystemExit("overlay(s): src/%s contains an async block; the de-async rewrite does not cover it" % rel)
-            open(fp, "w").write(t2)
+            src_text = deasync(open(fp).read(), rel)
+            open(fp, "w").write(src_text)
         extra_children = dict(S_CHILD_MODS)
         models = list(models) + ["async-broadcast"]
 
@@ -126,7 +169,8 @@ def build(dst: str, models=(), real_blake2=False, cfgs=(), variant="model"):
     if not real_blake2 and "blake2" not in names:
         names.append("blake2")
     for n in names:
-        t += '%s = { path = "%s/models/%s" }\n' % (n, VERIF, n)
+        crate = n[:-5] if n.endswith("-sync") else n
+        t += '%s = { path = "%s/models/%s" }\n' % (crate, VERIF, n)
     t += "\n[lints.rust]\nunexpected_cfgs = { level = \"allow\" }\n"
     open(ct, "w").write(t)
     return dst
